@@ -4,6 +4,7 @@ import XPathV.Model.Api
 import XPathV.Lemmas.Facts
 import XPathV.Lemmas.FlatFiltered
 import XPathV.Lemmas.Pull2Proofs
+import XPathV.Lemmas.Pull2Gen
 /-!
 # C12 — flat paths: document order, no duplicates; iterator protocol
 
@@ -174,5 +175,26 @@ theorem C12_moveNext_current (d : Doc) (cfg : ECfg) (dec : Plan → Ref → Bool
       | x :: xs => ∃ q', PQ2.moveNext d cfg dec f q c = some (true, q', x.r) ∧
           q'.position = x.pos ∧ q'.depth = x.lvl ∧ (∀ c'', rem2 d cfg dec c'' q' = xs) ∧ q'.Inv d :=
   moveNext_current d cfg dec hd q hs hi c hg
+
+/-! ## the machine-level statement for filters with predicates of any value kind (`Lemmas/Pull2Gen`)
+
+`DecOK'`: the oracle `dec` only has to be the keep-decision the sequence model makes for the candidates the machine
+can present (boolean, string and node-list valued predicates without restriction; a number-valued predicate when its
+verdict is a function of the node among the candidates offered — `DecOK → DecOK'`). -/
+section AnyPredicate
+open XPathV.Model
+/-- **C12, second half, all sixteen iterator types (`Model/Pull2`)**, filters with predicates of any
+value kind — *Evaluate's iterator produces the same sequence as Select*: for every covered plan the
+Go-like pull machine the builder creates, drained with enough fuel, reports exactly the sequence
+`sel` of the plan and ends exhausted. -/
+theorem C12_all_iterators_refine_sequence' {F : Type} [NumAlg F] (d : Doc) (cfg : ECfg) (dec : Plan → Ref → Bool) (hd : 0 < d.length)
+    (p : Plan) (q : PQ2) (h : PQ2.ofPlan p = some q) (hs : NeedsWF p → WF d)
+    (c : Ref) (hdec : q.DecOK' (F := F) d cfg dec c) (hg : Good d c) :
+    ∃ l, sel (F := F) d cfg p c = .ok l ∧
+      ∃ q' c' f0, (∀ f, f0 ≤ f → drain2 d cfg dec f q c = some (l, q', c')) ∧
+        (∀ c'', rem2 d cfg dec c'' q' = []) :=
+  drain2_eq_sel' d cfg dec hd p q h hs c hdec hg
+
+end AnyPredicate
 
 end XPathV.Theorems.C12
